@@ -2087,7 +2087,8 @@ func (c *Ctx) lexLossless(rule string, pkgs ...string) (n int) {
 		var loop *ast.ForStmt
 		ast.Inspect(fi.Decl.Body, func(m ast.Node) bool {
 			if fs, ok := m.(*ast.ForStmt); ok && loop == nil {
-				for _, call := range callsIn(fs.Body, false) {
+				// the read may sit in the body or in the loop's own header (`for ch := s.read(); ch != eof; ch = s.read()`)
+				for _, call := range callsIn(fs, false) {
 					if isRead(call) {
 						loop = fs
 					}
